@@ -397,3 +397,131 @@ def rules_sets(rep, db, inline):
                     why = "for %d elements the values inserted are %s, expected %s" % (n, ins, want)
                     break
             (rep.fail if why else rep.ok)("SETOPS", key, F.primary_site(fn), F.describe(fn)[:160], **({"why": why} if why else {"how": "every element's %s in order" % member}))
+
+
+def rules_assoc(rep, db, inline):
+    rep.rule("ASSOC", "find_opt / find_opt_iterator / find_opt_mapped / get_or_insert(_with_result) / at_optional: one lookup of the caller's key in the caller's "
+                      "container; nothing exactly when it is not found (index not below size()); otherwise the element found; the creator runs once, with the key, only when "
+                      "the key is missing, and its result is what is inserted and returned", floor=10)
+    cfg = sx.Config(inline_prefixes=tuple(inline) + ("fcppt::range::", "fcppt::container::", "fcppt::optional::"), loop_bound=2, lvalues=True, iter_positions=True)
+
+    def norm(x):
+        return re.sub(r"\s+", "", x)
+
+    def each(name):
+        seen = set()
+        for fn in db.fns("fcppt::container::" + name):
+            k_ = tuple(fn.get("targs") or [])
+            if k_ in seen:
+                continue
+            seen.add(k_)
+            key = "%s<%s>" % (name, ", ".join(x.replace("std::", "").replace("drv::", "") for x in k_)[:90])
+            try:
+                ps = sx.Interp(db, cfg).paths(fn, limit=40)
+            except sx.Unsupported as e:
+                rep.broken("C16 ASSOC %s: %s" % (key, e))
+                continue
+            yield fn, ps, key
+
+    def lookup(p, c, k):
+        """(found: bool) when the path starts with find(c, k), end(c) and is decided by their comparison only; else a reason string"""
+        ev = shown(p)
+        if len(ev) < 2 or ev[0][0].split("::")[-1] != "find" or ev[0][1] != [c, k] or ev[1][0].split("::")[-1] not in ("end", "cend") or ev[1][1] != [c]:
+            return "the container's find(key) / end() are not the first things evaluated: %s" % ev[:2]
+        if len(p.decisions) != 1:
+            return "%d decisions" % len(p.decisions)
+        d, v = p.decisions[0]
+        t = norm(sx.show(d))
+        m_ = re.match(r"^#(\d+):operator(==|!=)$", t)
+        if m_ and int(m_.group(1)) <= len(ev):
+            # an iterator class whose comparison is an opaque call: the call's operands stand for the decision
+            n_, a_ = ev[int(m_.group(1)) - 1]
+            if sorted(unwrap_iter(x) for x in a_) == ["#1:find", "#2:end"]:
+                ev.pop(int(m_.group(1)) - 1)
+                p.events.pop(int(m_.group(1)) - 1) if False else None
+                t = "(#1:find%s#2:end)" % m_.group(2)
+        if t not in ("(#1:find==#2:end)", "(#2:end==#1:find)", "(#1:find!=#2:end)", "(#2:end!=#1:find)"):
+            return "decided by %s" % t
+        return (not v) if "==" in t else v
+
+    results = {
+        "find_opt": lambda out: out in ("optional::object{fcppt::reference{deref(#1:find)}}:some",),
+        "find_opt_iterator": lambda out: out == "optional::object{#1:find}:some",
+        "find_opt_mapped": lambda out: out == "optional::object{fcppt::reference{deref(#1:find)}.second}:some",
+    }
+    for name, ok_some in results.items():
+        for fn, ps, key in each(name):
+            c, k = fn["params"][0]["name"], fn["params"][1]["name"]
+            why = None
+            rows = set()
+            for p in ps:
+                f = lookup(p, c, k)
+                if isinstance(f, str):
+                    why = f
+                    break
+                rows.add(f)
+                out = norm(sx.show(p.outcome[1])) if p.outcome[0] == "return" else "?"
+                extra = [n for n, a in shown(p)[2:] if not re.search(r"operator(==|!=)$", n)]
+                if extra:
+                    why = "effects beyond the lookup: %s" % extra
+                elif not f and not out.endswith(":none"):
+                    why = "the key is not found but the result is %s" % out
+                elif f and not ok_some(out):
+                    why = "the key is found but the result is %s" % out
+                if why:
+                    break
+            if not why and rows != {True, False}:
+                why = "found / not found are not both possible"
+            (rep.fail if why else rep.ok)("ASSOC", key, F.primary_site(fn), F.describe(fn)[:160], **({"why": why} if why else {"how": "table"}))
+    for name in ("get_or_insert_with_result", "get_or_insert"):
+        for fn, ps, key in each(name):
+            c, k, cr = [p["name"] for p in fn["params"][:3]]
+            why = None
+            rows = set()
+            for p in ps:
+                f = lookup(p, c, k)
+                if isinstance(f, str):
+                    why = f
+                    break
+                rows.add(f)
+                ev = shown(p)
+                out = norm(sx.show(p.outcome[1])) if p.outcome[0] == "return" else "?"
+                tail = ".reference_" if name == "get_or_insert" else ""
+                if f:
+                    if len(ev) != 2:
+                        why = "the key is found but there are further effects: %s" % [n for n, a in ev[2:]]
+                    elif out != "container::get_or_insert_result{fcppt::reference{deref(#1:find)}.second,0}" + tail:
+                        why = "the key is found but the result is %s" % out
+                else:
+                    if len(ev) != 4 or ev[2] != ("call", [cr, k]) or ev[3][0].split("<")[0].split("::")[-1] not in ("emplace", "insert", "try_emplace") or ev[3][1] != [c, k, "#3:call"]:
+                        why = "a missing key is not handled by create(key) once followed by emplace(key, that result): %s" % ev[2:]
+                    elif out != "container::get_or_insert_result{addr(deref(#4:emplace.first)).second,1}" + tail:
+                        why = "after inserting, the result is %s, expected the mapped object of the inserted element and inserted = true" % out
+                if why:
+                    break
+            if not why and rows != {True, False}:
+                why = "found / not found are not both possible"
+            (rep.fail if why else rep.ok)("ASSOC", key, F.primary_site(fn), F.describe(fn)[:160], **({"why": why} if why else {"how": "table"}))
+    for fn, ps, key in each("at_optional"):
+        c, i = fn["params"][0]["name"], fn["params"][1]["name"]
+        why = None
+        rows = set()
+        for p in ps:
+            ev = shown(p)
+            if not ev or ev[0][0].split("::")[-1] != "size" or ev[0][1] != [c] or len(p.decisions) != 1 or norm(sx.show(p.decisions[0][0])) != "(%s<#1:size)" % i:
+                why = "not decided by index < size() of the container: %s" % [sx.show(d) for d, v in p.decisions]
+                break
+            inr = p.decisions[0][1]
+            rows.add(inr)
+            out = norm(sx.show(p.outcome[1])) if p.outcome[0] == "return" else "?"
+            if not inr and not out.endswith(":none"):
+                why = "index out of range but the result is %s" % out
+            elif inr:
+                m = re.match(r"^optional::object\{(?:fcppt::reference\{)?deref\(\(#(\d+):c?begin\+(#(\d+):to_signed|%s)\)\)\}?\}:some$" % re.escape(i), out)
+                if not m or ev[int(m.group(1)) - 1][1] != [c] or (m.group(3) and ev[int(m.group(3)) - 1][1] != [i]):
+                    why = "index in range but the result is %s, expected the element at begin() + index" % out
+            if why:
+                break
+        if not why and rows != {True, False}:
+            why = "in range / out of range are not both possible"
+        (rep.fail if why else rep.ok)("ASSOC", key, F.primary_site(fn), F.describe(fn)[:160], **({"why": why} if why else {"how": "table"}))
